@@ -77,8 +77,10 @@ def body(draw, i, ndefs):
 @st.composite
 def item(draw, ndefs, nested=True):
     base = draw(st.one_of(st.integers(0, ndefs - 1).map(lambda j: {"u": j}), st.sampled_from(LEAVES))) if ndefs else draw(st.sampled_from(LEAVES))
-    wrap = draw(st.sampled_from([None, None, None, "adj", "ctrl", "pow"]))
-    it = {"q": "op", "g": base, "wrap": wrap, "n": draw(st.integers(1, 3)), "z": draw(st.integers(0, 1)), "k": draw(st.integers(1, 4)),
+    wrap = draw(st.sampled_from([None, None, None, "adj", "ctrl", "pow", "powpow"]))
+    if wrap == "powpow" and "u" not in base:
+        wrap = "pow"   # library leaves have their own power rules (X**2 = I); nested powers are asserted for user ops
+    it = {"q": "op", "g": base, "k2": draw(st.sampled_from([2, 3, 3, 4])), "wrap": wrap, "n": draw(st.integers(1, 3)), "z": draw(st.integers(0, 1)), "k": draw(st.integers(1, 4)),
           "wires": draw(st.sampled_from([None, None, "a", "b"])), "rep": draw(st.sampled_from([1, 1, 1, 2, 3]))}
     if nested and draw(st.integers(0, 9)) == 0:
         return {"q": "prod", "items": [[draw(item(ndefs, False)), draw(st.integers(1, 3))] for _ in range(draw(st.integers(1, 3)))], "rep": 1}
@@ -191,6 +193,8 @@ def make_item(qre, classes, it):
         return qre.Controlled(base, it["n"], it["z"])
     if it["wrap"] == "pow":
         return qre.Pow(base, it["k"])
+    if it["wrap"] == "powpow":
+        return qre.Pow(qre.Pow(base, it["k"]), it["k2"])   # (U**k)**k2 = U**(k*k2)
     return base
 
 
@@ -251,7 +255,8 @@ class Oracle:
 
     @staticmethod
     def mode_of(it):
-        return {None: None, "adj": "adj", "ctrl": ("ctrl", it["n"], it["z"]), "pow": ("pow", it["k"])}[it["wrap"]]
+        return {None: None, "adj": "adj", "ctrl": ("ctrl", it["n"], it["z"]), "pow": ("pow", it["k"]),
+                "powpow": ("pow", it["k"] * it.get("k2", 1))}[it["wrap"]]
 
     def item_counts_adj(self, it):
         """Counts of Adjoint(item) for an unwrapped or wrapped simple item (used by ChangeOpBasis)."""
